@@ -1014,7 +1014,9 @@ func runC14(rc *runCtx) error {
 	cl := &c14Cluster{tmp: tmp, ports: ports}
 	for i, p := range ports {
 		cl.hosts = append(cl.hosts, "localhost:"+strconv.Itoa(p))
-		cl.roots = append(cl.roots, filepath.Join(tmp, fmt.Sprintf("node%d", i)))
+		// data directories are whatever the operator configured: characters that mean something to a pattern
+		// matcher or a shell are ordinary characters of a path
+		cl.roots = append(cl.roots, filepath.Join(tmp, []string{"node0", "node[1]", "node*2", "node 3?"}[i%4]))
 	}
 	nfiles := 4
 	if rc.thorough() {
